@@ -98,6 +98,78 @@ theorem section_found_either_spelling (d : Doc) (name : Str) :
     · simp [h]
   rw [this]
 
+/-! ## Normalising is stable -/
+
+def keysOf {β} (d : List (Str × β)) : List Str := d.map (·.1)
+
+theorem upsert_fresh {β} (d : List (Str × β)) (k : Str) (v : β) (h : k ∉ keysOf d) : upsert d k v = d ++ [(k, v)] := by
+  induction d with
+  | nil => rfl
+  | cons hd t ih =>
+    obtain ⟨k', v'⟩ := hd
+    simp only [keysOf, List.map_cons, List.mem_cons, not_or] at h
+    have hne : (k' == k) = false := by
+      cases hh : (k' == k) with
+      | false => rfl
+      | true => exact absurd (by simpa using hh : k' = k).symm h.1
+    simp only [upsert, hne, Bool.false_eq_true, if_false, List.cons_append]
+    rw [ih h.2]
+
+theorem foldl_upsert_fresh {β} (f : Str → Str) (l : List (Str × β)) :
+    ∀ acc : List (Str × β), ((acc.map (·.1)) ++ (l.map (fun kv => f kv.1))).Nodup →
+      l.foldl (fun a kv => upsert a (f kv.1) kv.2) acc = acc ++ l.map (fun kv => (f kv.1, kv.2)) := by
+  induction l with
+  | nil => intro acc _; simp
+  | cons x xs ih =>
+    intro acc hnd
+    simp only [List.foldl_cons, List.map_cons]
+    have hfresh : f x.1 ∉ keysOf acc := by
+      intro hmem
+      have := List.nodup_append.mp hnd
+      exact this.2.2 _ hmem _ (by simp) rfl
+    rw [upsert_fresh acc (f x.1) x.2 hfresh]
+    have hnd' : (((acc ++ [(f x.1, x.2)]).map (·.1)) ++ (xs.map (fun kv => f kv.1))).Nodup := by
+      simp only [List.map_append, List.map_cons, List.map_nil, List.append_assoc, List.cons_append, List.nil_append]
+      simpa using hnd
+    rw [ih _ hnd']
+    simp
+
+/-- **Normalising is stable**: a document whose section keys are already distinct after normalisation
+    keeps its sections in order, and normalising twice changes nothing -/
+theorem normalize_of_distinct (d : Doc) (h : (d.sections.map (fun kv => normKey kv.1)).Nodup) :
+    (normalize d).sections = d.sections.map (fun kv => (normKey kv.1, kv.2)) := by
+  unfold normalize
+  have := foldl_upsert_fresh normKey d.sections [] (by simpa using h)
+  simpa using this
+
+theorem normKey_idem (k : Str) : normKey (normKey k) = normKey k := by
+  unfold normKey; rw [List.map_map]; apply List.map_congr_left; intro c _
+  by_cases h : c = '-'
+  · subst h; decide
+  · simp [h]
+
+theorem normalize_idempotent (d : Doc) (h : (d.sections.map (fun kv => normKey kv.1)).Nodup) :
+    normalize (normalize d) = normalize d := by
+  have h1 := normalize_of_distinct d h
+  have hnd2 : ((normalize d).sections.map (fun kv => normKey kv.1)).Nodup := by
+    rw [h1, List.map_map]
+    have : ((fun kv : Str × Section => normKey kv.1) ∘ fun (kv : Str × Section) => (normKey kv.1, kv.2)) = fun kv => normKey kv.1 := by
+      funext kv; simp [normKey_idem]
+    rw [this]; exact h
+  have h2 := normalize_of_distinct (normalize d) hnd2
+  have hs : (normalize (normalize d)).sections = (normalize d).sections := by
+    rw [h2, h1, List.map_map]
+    apply List.map_congr_left
+    intro kv _
+    simp [normKey_idem]
+  have hi : (normalize (normalize d)).ignore = (normalize d).ignore := rfl
+  generalize normalize (normalize d) = x at hs hi
+  generalize normalize d = y at hs hi
+  cases x; cases y
+  simp only at hs hi
+  rw [hs, hi]
+
+
 /-! ## Command-line thresholds -/
 
 theorem effOpt_applyCli (s : Section) (lang key : Str) (v : Val) :
